@@ -36,9 +36,11 @@ COMMON_ASSUMPTIONS = [
 PROPS = {
     "C02": {
         "engine": "dsim",
+        "parts": ["C02", "C02d"],
+        "part_engines": {"C02": "dsim", "C02d": "hsim"},
         "level": "exploration",
         "technique": "deterministic simulation with fault injection (seeded schedules over a simulated transport, mock CQL node as omniscient observer)",
-        "rule": "each run = one seeded scenario: 2..96 client tasks x 1..6 uniquely marked requests on ONE shared connection (PerHost(1), unsharded node), seeded response delay/order/never-answer, caller cancellation (never polled / after first poll / around write / after write / late), write coalescing mode, fragmentation, chaos yields, back-pressure, compression. Non-trivial = at least 2 requests were simultaneously outstanding on the connection at the mock, or at least one cancellation fired. Distinct = distinct (Tokio poll-sequence hash, event-log hash) pairs among non-trivial runs.",
+        "rule": "each run = one seeded scenario: 2..96 client tasks x 1..6 uniquely marked requests on ONE shared connection (PerHost(1), unsharded node), seeded response delay/order/never-answer, caller cancellation (never polled / after first poll / around write / after write / late), write coalescing mode, fragmentation, chaos yields, back-pressure, compression. Non-trivial = at least 2 requests were simultaneously outstanding on the connection at the mock, or at least one cancellation fired. Distinct = distinct (Tokio poll-sequence hash, event-log hash) pairs among non-trivial runs. Rarely (3 per mille quick, 20 per mille thorough) a run fills the whole id space instead: 33068 requests outstanding at once on the connection, the node answers a chosen few (ids at the 64-bit block boundaries of the bitmap, the extremes, 20 random ones) and only the freed ids may be used again. Part C02d (hsim, direct history driver): seeded histories of allocate / orphan (live, already answered = late notification, unknown) / lookup (reserved in seeded order, or unsolicited) on the real ResponseHandlerMap/StreamIdSet through a thin wrapper, incl. histories that fill all 32768 ids and free ids at block boundaries, against a map model (oracles c02.stream_id_reuse, c02.lookup, c02.exhaustion, c02.late_orphan, c02.range); non-trivial = history with at least one orphan or exhaustion; distinct = distinct history hashes.",
         "assumptions": COMMON_ASSUMPTIONS + [
             "oracles: (a) every Ok result carries the marker of its own request; (b) the mock never sees a stream id on a new request while an earlier request with that id is unanswered by the mock (abandoned requests included); (c) every request frame parses and has a stream id in 0..32767; (d) a fresh request after quiescence returns",
         ],
@@ -84,11 +86,11 @@ PROPS = {
     },
     "C19": {
         "engine": "tsim",
-        "parts": ["C19", "C19e"],
-        "part_engines": {"C19": "tsim", "C19e": "dsim"},
+        "parts": ["C19", "C19e", "C19p"],
+        "part_engines": {"C19": "tsim", "C19e": "dsim", "C19p": "hsim"},
         "level": "exploration",
         "technique": "deterministic simulation with fault injection (shuttle-controlled producer/consumer schedules over the real merge channel with hook-supplied scheduling points between every shared-state operation)",
-        "rule": "each case = one shuttle execution of a producer thread (modify: push unique id / no-op / retract; drop sender early, late or after an acknowledged sentinel) and a consumer thread (recv under block_on, recv cancelled after one poll and restarted, try_recv, early receiver drop) on one real merge_channel; scheduling points from cfg(scylla_verif) hooks between the flag loads/stores, slot critical section, notify_one, enable() and take(); schedulers: seeded random and PCT depth 2-3. Non-trivial = producer and consumer operations overlapped or a fault (cancel, retract, drop race) fired. Distinct = distinct hashes of the observed event history incl. the scheduling sites hit. Part C19e (engine A, end-to-end): a real session on 1..4 nodes (+1..3 spare nodes), 0..3 tasks calling refresh_metadata() at seeded instants while 1..14 seeded events happen: node joins / leaves / is replaced under the same address with a new host id / changes rack, each with or without the corresponding EVENT, event floods (10..73 STATUS_CHANGE/SCHEMA_CHANGE events), control-connection resets; system tables paged by 0..2 rows; oracles: every refresh_metadata() call is answered (Ok or Err) within 240 virtual s, and after faults stop and one successful refresh the published ClusterState node set (host ids) equals the mock cluster's.",
+        "rule": "each case = one shuttle execution of a producer thread (modify: push unique id / no-op / retract; drop sender early, late or after an acknowledged sentinel) and a consumer thread (recv under block_on, recv cancelled after one poll and restarted, try_recv, early receiver drop) on one real merge_channel; scheduling points from cfg(scylla_verif) hooks between the flag loads/stores, slot critical section, notify_one, enable() and take(); schedulers: seeded random and PCT depth 2-3. Non-trivial = producer and consumer operations overlapped or a fault (cancel, retract, drop race) fired. Distinct = distinct hashes of the observed event history incl. the scheduling sites hit. Part C19e (engine A, end-to-end): a real session on 1..4 nodes (+1..3 spare nodes), 0..3 tasks calling refresh_metadata() at seeded instants while 1..14 seeded events happen: node joins / leaves / is replaced under the same address with a new host id / changes rack, each with or without the corresponding EVENT, event floods (10..73 STATUS_CHANGE/SCHEMA_CHANGE events), control-connection resets; system tables paged by 0..2 rows; oracles: every refresh_metadata() call is answered (Ok or Err) within 240 virtual s, and after faults stop and one successful refresh the published ClusterState node set (host ids) equals the mock cluster's. Part C19p (hsim, poll-granularity driver, single thread, the harness owns the only waker): seeded sequences of <= 24 producer steps {modify(push id), modify(no-op), modify(retract), drop} and consumer steps {start recv, poll, cancel, try_recv, drop receiver}, with producer steps also injected inside a recv poll at the hook scheduling points; reference model = one pending vector; oracles c19.lost_or_dup, c19.lost_wakeup (model says pending and the last poll returned Pending => the waker was invoked; a fresh recv polled once returns Ready), c19.none_early, c19.send_error.",
         "assumptions": [
             "sequential consistency per scheduling point; tokio::sync::Notify is real code but its internals have no extra scheduling points",
             "oracles: concatenation of received values == merged-and-not-retracted ids in order, each once; None only after the sender is gone and the last value taken; a consumer parked forever while a value is pending or the sender is gone = shuttle deadlock = lost wake-up; modify errs when the receiver's drop completed before the call and succeeds when the drop had not begun when it returned (the racing window is not judged)",
@@ -110,11 +112,11 @@ PROPS = {
     },
     "C13": {
         "engine": "dsim",
-        "parts": ["C13"],
-        "part_engines": {"C13": "dsim"},
+        "parts": ["C13", "C13d"],
+        "part_engines": {"C13": "dsim", "C13d": "hsim"},
         "level": "exploration",
         "technique": "deterministic simulation with fault injection (mock nodes delay and answer each attempt per seeded script on virtual time; ties between the speculative timer and completions)",
-        "rule": "each run = 2..6 unsharded nodes, SimpleSpeculativeExecutionPolicy(max 0..4, interval 50/100/200 ms), retry policy Fallthrough (2/3) or Default, 1..8 sequential uniquely marked requests, idempotent (3/4) or not; for every attempt reaching a node the tape picks a completion delay on the grid 0, d/2, d, ..., 7d/2 and an outcome: success, definitive error (Invalid/Syntax/Unauthorized/AlreadyExists), ignorable error (Overloaded/Unavailable/IsBootstrapping), connection reset. Non-trivial = at least one speculative execution reached a node. Distinct = distinct (poll-sequence hash, event-log hash).",
+        "rule": "each run = 2..6 unsharded nodes, SimpleSpeculativeExecutionPolicy(max 0..4, interval 50/100/200 ms), retry policy Fallthrough (2/3) or Default, 1..8 sequential uniquely marked requests, idempotent (3/4) or not; for every attempt reaching a node the tape picks a completion delay on the grid 0, d/2, d, ..., 7d/2 and an outcome: success, definitive error (Invalid/Syntax/Unauthorized/AlreadyExists), ignorable error (Overloaded/Unavailable/IsBootstrapping), connection reset. Non-trivial = at least one speculative execution reached a node. Distinct = distinct (poll-sequence hash, event-log hash). Part C13d (hsim, direct driver): the real speculative_execution::execute loop driven through a wrapper on a paused current_thread runtime (one forked process per case because futures::select! breaks ties with process-global state) with up to 5 scripted fibers, each (completion delay in {0, d/2, ..., 3d}, outcome in {success, definitive error, ignorable error, plan exhausted}), max 0..4, exact virtual instants: oracles c13.too_many, c13.too_early, c13.first_real_answer (earliest real outcome, returned at that instant, ties: any tied), c13.last_error (returns the last ignorable error exactly when every started fiber has finished and none may still start), c13.hang.",
         "assumptions": COMMON_ASSUMPTIONS + [
             "oracles from the mock's per-attempt history: (a) a non-idempotent request never has unanswered attempts on two nodes at once (any retry policy); with Fallthrough (one attempt per execution): (b) executions <= 1 + max (1 if not idempotent), the k-th reaches a node no earlier than k x interval; (c) executions go to distinct nodes; (d) the call returns a success/definitive outcome that is the earliest one (ties within 4 ms: any of the tied), no later than 6-10 ms after it was sent and not before; (e) without any real answer it fails with an ignorable error, not before every started execution finished; (f) it returns within 120 virtual s",
             "exact return instants of case (e) and exact tie handling are decided by the direct driver part (C13d), not end-to-end",
@@ -168,11 +170,11 @@ PROPS = {
     },
     "C15": {
         "engine": "dsim",
-        "parts": ["C15e"],
-        "part_engines": {"C15e": "dsim"},
+        "parts": ["C15e", "C15d"],
+        "part_engines": {"C15e": "dsim", "C15d": "hsim"},
         "level": "exploration",
         "technique": "deterministic simulation with fault injection (tablet feedback through response payloads under server-side tablet migrations and topology maintenance; reference model = latest-wins list of tablets sent)",
-        "rule": "part C15e (engine A, end-to-end): 2..5 nodes x 1..4 shards, a tablet keyspace whose server-side layout (1..8 tablets over the whole ring, rf 1..3, replicas = (node, shard)) is changed 0..5 times during the run (tablet moved, split, or merged with its neighbour); 10..80 sequential executions of a prepared statement over a small key pool; the mock attaches a tablets-routing-v1 payload exactly when the request reached a non-replica node/shard (as ScyllaDB does) and keeps the reference model of what it has sent (insert = delete overlapping, then add); optionally a node is removed (REMOVED_NODE event) at the end. Non-trivial = at least one payload was sent. Distinct = distinct (poll-sequence hash, event-log hash).",
+        "rule": "part C15e (engine A, end-to-end): 2..5 nodes x 1..4 shards, a tablet keyspace whose server-side layout (1..8 tablets over the whole ring, rf 1..3, replicas = (node, shard)) is changed 0..5 times during the run (tablet moved, split, or merged with its neighbour); 10..80 sequential executions of a prepared statement over a small key pool; the mock attaches a tablets-routing-v1 payload exactly when the request reached a non-replica node/shard (as ScyllaDB does) and keeps the reference model of what it has sent (insert = delete overlapping, then add); optionally a node is removed (REMOVED_NODE event) at the end. Non-trivial = at least one payload was sent. Distinct = distinct (poll-sequence hash, event-log hash). Part C15d (hsim, direct history driver over the real TabletsInfo/TableTablets/RawTablet::from_custom_payload through a wrapper): histories of <= 12 steps over a 16-token universe (quick) and up to 200 steps over full i64 (thorough): insert(range, replicas incl. unknown host ids) with every overlap relation (before, adjacent, overlapping left/right, containing, contained, equal, ending at i64::MAX, starting at i64::MIN), rejected payloads (last <= first), and maintenance steps (nodes removed, nodes re-created as new Node objects incl. datacenter change, unknown replicas resolvable or not, table dropped / keyspace no longer tablet-based, second table); after EVERY step every token of the universe is looked up and compared with a plain-vector reference model (oracles c15.lookup, c15.sorted_disjoint, c15.dc_restriction, c15.dc_restriction_dc_change, c15.stale_node, c15.rejected_payload, c15.panic_reresolve_recreated).",
         "assumptions": COMMON_ASSUMPTIONS + [
             "oracles: (1) a request whose token is covered by a tablet the client had learnt before it was submitted goes to a replica node of that tablet and, when the mock sees a pool connection to that shard, on the tablet's shard; (2) after quiescence ClusterState::get_token_endpoints at every boundary +-1 of every sent or server-side tablet and at the extremes equals the reference model (replica host ids and shards in order; nothing where nothing is known or where a later tablet overlapped or the removed node was a replica)",
             "requests are sequential so that 'most recently learnt' is well defined; feedback is given 20 virtual ms to be applied by the cluster worker",
